@@ -35,7 +35,7 @@ func TestC03_S1Visibility(t *testing.T) {
 			"iterators/Hottest/Coldest/save-load must skip expired entries; non-trivial = at least one non-read operation applied to an expired-unswept key",
 		Profile: &vh.Profile{Name: "c03", NeedExpiry: true, TinyTTL: true, Executors: both(), MinLen: 1, MaxLen: 80, MaxKeys: 4,
 			Ops: with(vh.BaseOps(), "advance", 14, "advanceto", 6, "saveload", 2, "iter", 5, "cleanup", 1)},
-		Facets:       vh.FVis | vh.FRet | vh.FContents | vh.FIter | vh.FPanic,
+		Facets:       vh.FVis | vh.FRet | vh.FContents | vh.FIter | vh.FPanic | vh.FLoad | vh.FRefresh,
 		FinalQuiesce: true,
 		NonTrivial:   func(r *vh.Runner) bool { return r.St.WritesOnExpired > 0 },
 		Classes: func(r *vh.Runner) []string {
